@@ -26,61 +26,101 @@ def ev_name(v, p, alias=None):
     return obj_root(v, alias or {}, p.final.mem)
 
 
+def _selection_atoms(p, extra=()):
+    """partial valuation of L (event.left), R (event in result), H (other event alive), O (other event in result) on a path;
+    unknown conditions are returned separately"""
+    val, unknown = {}, []
+    for (v, c) in list(p.conds) + list(extra):
+        x = strip_upd(v)
+        s = show(noepoch(x))
+        other = 'other_event' in s
+        nm = atom_name(x, {})
+        if nm and nm.endswith('.left') and not other:
+            val['L'] = bool(c[1])
+        elif x[0] == 'op' and x[1] in ('ne', 'eq') and len(x) == 4 and 'result_transition' in show(noepoch(x[2])) \
+                and show(noepoch(x[3])).endswith('None{}'):
+            truth = bool(c[1]) if x[1] == 'ne' else (not c[1])
+            val['O' if other else 'R'] = truth
+        elif x[0] == 'discr' and 'Weak::upgrade' in s and other:
+            val['H'] = (c == ('eq', 1))
+        elif x[0] == 'discr' and re.search(r'(next|next_back)\(', s) and not other:
+            continue            # the iterator of the loop
+        elif x[0] == 'havoc' or (x[0] == 'op' and x[1] in ('lt', 'gt') and 'index(' in s):
+            continue            # loop-carried flag / the ordering loop
+        else:
+            unknown.append(s[:80])
+    return val, unknown
+
+
 def check_result_events(ctx, rep, rule='T-result-events'):
-    """an event is walked iff it is the left end of a result segment, or the right end of one (its left end is in the result)"""
+    """an event is walked iff it is the left end of a result segment, or the right end of one (its left end is in the result).
+    The selection is read either from the paths of the selecting loop of order_events (pushed or not) or from the closure given
+    to `Iterator::filter` on sorted_events (true or false), and compared row by row with (L and R) or (not L and H and O)."""
+    import itertools
     b, ps = rep.explore(ctx, ORDER, rule)
     if b is None:
         return
     loops = sorted(b.loops())
     first = loops[0] if loops else None
-    n = 0
-    seen = set()
+    rows = []       # (partial valuation, selected?)
+    bad = set()
+    filt = None
     for p in ps:
-        if p.end != 'backedge' or p.end_info != first:
-            continue
-        left = in_res = right_res = None
-        for (v, c) in p.conds:
-            x = strip_upd(v)
-            nm = atom_name(x, {})
-            if nm and nm.endswith('.left'):
-                left = c[1]
-            elif x[0] == 'op' and x[1] in ('ne', 'eq') and 'result_transition' in show(noepoch(x[2])):
-                in_res = c[1] if x[1] == 'ne' else (not c[1])
-            elif x[0] in ('call', 'pcall') and x[1].endswith('unwrap_or'):
-                a0 = strip_upd(x[2][0])
-                ok_shape = a0[0] in ('call', 'pcall') and a0[1].endswith('Option::<T>::map') and weak_link(strip_upd(a0[2][0]), {}) is not None \
-                    and sym.is_const(strip_upd(x[2][1])) and strip_upd(x[2][1])[1] is False
-                right_res = c[1] if ok_shape else 'other'
-        pushed = [e for e in p.calls() if e['callee'].endswith('::push') and 'Vec' in e['callee']]
-        pushed_event = bool(pushed) and iter_payload(strip_upd(pushed[0]['args'][1])) or \
-            (bool(pushed) and iter_payload(strip_upd(pushed[0]['args'][1])[2][0]) if pushed and strip_upd(pushed[0]['args'][1])[0] in ('call', 'pcall') else False)
-        if left is True:
-            exp = in_res is True
-            key = 'left,in_result=%s' % in_res
-        elif left is False:
-            exp = right_res is True
-            key = 'right,other_in_result=%s' % right_res
-        else:
-            exp, key = None, 'kind-not-tested'
-        ok = exp is not None and bool(pushed) == exp and right_res != 'other'
-        if (key, ok) in seen:
-            continue
-        seen.add((key, ok))
+        for e in p.calls():
+            if e['callee'].endswith('::filter') and 'Iterator' in e['callee'] and len(e['args']) == 2:
+                c = strip_upd(e['args'][1])
+                recv_ok = any(x[0] == 'param' and x[2] == 'sorted_events' for x in sym.walk(e['args'][0]))
+                if c[0] == 'agg' and c[1] == 'closure' and recv_ok:
+                    filt = c[2]
+    if filt is not None and filt in ctx.facts().bodies:
+        bc, pc = rep.explore(ctx, filt, rule)
+        for p in pc or []:
+            if p.end != 'return':
+                continue
+            r = strip_upd(sym.simplify(sym.subst(p.ret, p.conds)))
+            if sym.is_const(r):
+                val, unknown = _selection_atoms(p)
+                rows.append((val, bool(r[1])))
+            else:
+                # the closure returns the last operand of its condition unevaluated: both outcomes
+                unknown = []
+                for truth in (False, True):
+                    val, unknown = _selection_atoms(p, extra=[(r, ('eq', truth))])
+                    rows.append((val, truth))
+            for u in unknown:
+                bad.add(u)
+    else:
+        for p in ps:
+            if p.end != 'backedge' or p.end_info != first:
+                continue
+            val, unknown = _selection_atoms(p)
+            for u in unknown:
+                bad.add(u)
+            pushed = [e for e in p.calls() if e['callee'].endswith('::push') and 'Vec' in e['callee']]
+            if pushed:
+                a = strip_upd(pushed[0]['args'][1])
+                while a[0] in ('deref', 'refval', 'rcptr') and len(a) > 1:
+                    a = strip_upd(a[1])
+                is_event = iter_payload(a) or (a[0] in ('call', 'pcall') and a[2] and iter_payload(strip_upd(a[2][0])))
+                if not is_event:
+                    bad.add('pushes %s' % show(noepoch(a))[:60])
+            rows.append((val, bool(pushed)))
+    for u in sorted(bad):
+        rep.ob(rule, 'selection-condition-modelled', False, 'the selection of result events depends on `%s`, which is not one of: the left flag, '
+               'the result transition of the event, the presence / result transition of its other event' % u, loc=b.loc(b.j['line_lo']),
+               reason='cannot-tabulate')
+    n = 0
+    for (L, R, H, O) in itertools.product((False, True), repeat=4):
+        full = {'L': L, 'R': R, 'H': H, 'O': O}
+        outs = set(sel for (val, sel) in rows if all(full[k] == v for k, v in val.items()))
+        exp = (L and R) or ((not L) and H and O)
         n += 1
-        rep.ob(rule, key, ok, 'order_events %s the event on the path (%s); an event belongs to the walk iff it is the left end of a result '
-               'segment or the right end of one' % ('keeps' if pushed else 'drops', key), loc=b.loc(b.j['line_lo']), reason='table-row')
-    rep.floor(rule, 'selection cases', n, 4)
-    # the closure applied to the other event is is_in_result
-    cl = [n2 for n2 in ctx.facts().bodies if n2.startswith(ORDER + '::{closure#')]
-    okc = False
-    for c in cl:
-        bc, pc = rep.explore(ctx, c, rule)
-        for p in pc:
-            r = strip_upd(p.ret) if p.ret else ('c', 0)
-            if r[0] == 'op' and r[1] == 'ne' and 'result_transition' in show(noepoch(r[2])) and show(r[3]).endswith('None{}'):
-                okc = True
-    rep.ob(rule, 'right-end-asks-its-left-end', okc, 'the closure mapped over the other event must be `is_in_result`', loc=b.loc(b.j['line_lo']),
-           reason='table-row')
+        rep.ob(rule, 'row:left=%d,in_result=%d,has_other=%d,other_in_result=%d' % (L, R, H, O), outs == {exp},
+               'an event belongs to the walk iff it is the left end of a result segment or the right end of one; with left=%s in_result=%s '
+               'other alive=%s other in_result=%s order_events %s, expected %s' % (L, R, H, O, sorted(map(str, outs)), exp),
+               loc=b.loc(b.j['line_lo']), reason='table-row')
+    rep.rows_compared += n
+    rep.floor(rule, 'selection paths', len(rows), 5)
 
 
 def check_other_pos(ctx, rep, rule='T-other-pos'):
